@@ -159,6 +159,17 @@ func (z *zone) close() {
 	z.closed = true
 }
 
+// inconsistent reports whether the constraints contradict each other (a negative cycle).
+func (z *zone) inconsistent() bool {
+	z.close()
+	for k, w := range z.e {
+		if v, ok := z.e[[2]string{k[1], k[0]}]; ok && w+v < 0 {
+			return true
+		}
+	}
+	return false
+}
+
 // le reports whether x - y <= w is implied.
 func (z *zone) le(x, y string, w int) bool {
 	if x == y {
@@ -345,6 +356,47 @@ func joinZones(a, b *zone) *zone {
 func zonesEqual(a, b *zone) bool {
 	a.close()
 	b.close()
+	// ghost terms (loop-head snapshots used by the progress rule) are reset at every loop head
+	// and must not keep the fixpoint iteration alive
+	isGhost := func(k [2]string) bool {
+		return strings.HasPrefix(k[0], "ghost#") || strings.HasPrefix(k[1], "ghost#")
+	}
+	na, nb := 0, 0
+	for k := range a.e {
+		if !isGhost(k) {
+			na++
+		}
+	}
+	for k := range b.e {
+		if !isGhost(k) {
+			nb++
+		}
+	}
+	if na != nb || len(a.offOf) != len(b.offOf) {
+		return false
+	}
+	for k, v := range a.e {
+		if isGhost(k) {
+			continue
+		}
+		if w, ok := b.e[k]; !ok || w != v {
+			return false
+		}
+	}
+	for k := range a.neg {
+		if !strings.HasPrefix(k, "ghost#") && !b.neg[k] {
+			return false
+		}
+	}
+	for k := range b.neg {
+		if !strings.HasPrefix(k, "ghost#") && !a.neg[k] {
+			return false
+		}
+	}
+	return true
+}
+
+func zonesEqualOld(a, b *zone) bool {
 	if len(a.e) != len(b.e) || len(a.neg) != len(b.neg) || len(a.offOf) != len(b.offOf) {
 		return false
 	}
@@ -427,6 +479,29 @@ type idxAnalyzer struct {
 	curRecv  string
 	curRecvT *types.Named
 	lenKeep  map[*types.Func]bool // string → string functions that preserve the byte length
+	progress map[ast.Node]*progSite
+	delta    map[*types.Func]map[string]fieldDelta
+	exitHook func(z *zone, rs *ast.ReturnStmt)
+}
+
+// fieldDelta: how much a method advances a cursor field of its receiver, at least.
+type fieldDelta struct {
+	okD   int  // … on exits whose boolean last result is not the literal false
+	hasOK bool
+	uncond  int    // f' - f >= uncond on every exit (valid if hasU)
+	hasU    bool
+	cond    int    // … when f < len(condSeq) held at entry
+	hasC    bool
+	condSeq string // field name of the text
+}
+
+type progSite struct {
+	fn     *ast.FuncDecl
+	loop   *ast.ForStmt
+	site   ast.Node
+	cursor string
+	ok     bool
+	seen   bool
 }
 
 type retFact struct {
@@ -1258,6 +1333,20 @@ func (a *idxAnalyzer) tupleAssign(z *zone, lhs []ast.Expr, call *ast.CallExpr) {
 	for _, l := range lhs {
 		if k, ok := a.termKey(l); ok {
 			z.forget(k)
+		}
+	}
+	if callee != nil && a.curRecvT != nil && len(lhs) >= 2 {
+		if se, ok := ast.Unparen(call.Fun).(*ast.SelectorExpr); ok {
+			if rk, ok := a.termKey(se.X); ok && rk == a.curRecv {
+				if okKey, ok := a.termKey(lhs[len(lhs)-1]); ok {
+					for f, d := range a.delta[callee] {
+						if d.hasOK && d.okD > 0 {
+							pre := fmt.Sprintf("pre#%d:%s", call.Pos(), f)
+							z.pend[okKey] = append(append([]pendEdge{}, z.pend[okKey]...), pendEdge{pre, rk + "." + f, -d.okD})
+						}
+					}
+				}
+			}
 		}
 	}
 	if callee == nil || callee.Pkg() == nil {
